@@ -38,6 +38,62 @@ CHECKS = {
           "closed without internal error; the last close leaves no row of that mailbox/nameplate and changes no other row; "
           "a re-sent close changes nothing; remaining subscribers keep delivery and messages.",
      tech="explicit-state BFS of the implementation with an open-side ghost and before/after row comparison"),
+ "C06": dict(cat="model_checking", ref="DESIGN.md §3.2, §4 C06",
+     text="Lockstep product exploration: world 0 runs the full history mixing apps X and Y (identical names, sides, "
+          "mailbox ids, messages; usage db on), world 1 only Y's events plus sweeps/restarts. After every event Y's frames, "
+          "Y's channel rows with their side rows, Y's usage rows and the ids Y's clients learned must be equal up to a "
+          "renaming of generated ids. One known finding (F2: mailboxes.id is a global primary key).",
+     tech="explicit-state BFS over a product of two real servers (full vs. projected history), id-bijection comparison"),
+ "C11": dict(cat="model_checking", ref="DESIGN.md §3.2, §4 C11",
+     text="Lockstep product: every prefix (<= d1 commands) x split x every continuation (<= d2 events incl. sweeps). At the "
+          "split all connections drop; world K keeps the Server object, world R is rebuilt from the database files at the "
+          "same sweep instant. All later frames, logged sweep errors and channel rows must be identical.",
+     tech="explicit-state BFS over a product of two real servers (kept vs. restarted)"),
+ "C12": dict(cat="model_checking", ref="DESIGN.md §3.3, §4 C12",
+     text="Timed exploration through the real TimerService on a virtual clock: every non-decreasing placement of 11 command "
+          "skeletons on the region grid (sweep instants, thresholds kP-E exactly and +-0.5, interior points) followed by "
+          "E+2P of sweeps; at every sweep each mailbox that is young (<E since last successful claim/allocate/open/add) or "
+          "has a ghost subscriber keeps all its rows (only `updated` may change), and surviving channels are never changed.",
+     tech="exhaustive enumeration of timed scenarios over a region grid, executed on the implementation with its real timer"),
+ "C13": dict(cat="model_checking", ref="DESIGN.md §3.3-3.4, §4 C13",
+     text="(a) BFS over the union driver, every state extended by 'all clients leave, clock advances E+2P': store must be "
+          "empty, every sweep removes every idle channel completely, sweeps stay on the P-lattice; (b) the timed skeleton "
+          "family of C12; (c) fault injection: the first channel-db access of sweep k raises OperationalError for every k "
+          "in the horizon of selected scenarios: the loop must stay scheduled and the next sweep must do the work.",
+     tech="explicit-state BFS with a quiescence closure + timed scenario enumeration + per-sweep fault injection on the implementation"),
+ "C14": dict(cat="model_checking", ref="DESIGN.md §3.2, §4 C14",
+     text="Lockstep product: base history vs. the same history with ONE acknowledged claim/release/open/close re-sent "
+          "immediately on a fresh connection of the same side; every position of the duplicate in every base history "
+          "(3 sides, crowding, released nameplates, deleted mailboxes). Duplicate's answer = original's; all later frames "
+          "and channel rows equal (timestamps included).",
+     tech="explicit-state BFS over a product of two real servers (base vs. duplicated command)"),
+ "C15": dict(cat="model_checking", ref="DESIGN.md §4 C15",
+     text="Usage database on, observation at commit granularity: each disappearance of a nameplates/mailboxes row <=> exactly "
+          "one new usage row of that app, with started/waiting/total/result recomputed from the harness's own event log and "
+          "the documented precedence; status row = number of subscribed connections. BFS over claim/release/open/close with "
+          "moods + timed skeletons + the complete classification family (1-4 sides x moods x close/expiry x open/claim).",
+     tech="explicit-state BFS + exhaustive scenario family on the implementation with a reference classification oracle"),
+ "C16": dict(cat="model_checking", ref="DESIGN.md §4 C16",
+     text="Through Options.parseOptions(--blur-usage=N): N x first-arrival residue x small/large multiple x every "
+          "record-writing path (bind, release, close, nameplate removed with mailbox, expiry, crowded, re-sent close, after "
+          "restart); every usage row written must satisfy value % N == 0 and 0 <= true - value < N.",
+     tech="exhaustive enumeration of a finite interval x residue x path grid on the implementation"),
+ "C18": dict(cat="model_checking", ref="DESIGN.md §3.2, §4 C18",
+     text="Lockstep product of 6 (quick, pairwise-covering) / 12 (thorough, all) configurations of listing x usage-db x blur "
+          "driven by one event stream incl. sweeps: all frames except the `nameplates` payload and all channel rows "
+          "identical; `list` = [] when disallowed, = stored set of the caller's app otherwise.",
+     tech="explicit-state BFS over a product of 6-12 real servers in different configurations"),
+ "C19": dict(cat="fault_enumeration", ref="DESIGN.md §3.4, §4 C19",
+     text="Every file-system call, sqlite connect, SQL statement, commit and close of first-time creation (4 entry points, "
+          "both schemas) is a crash point: each distinct directory image must have nothing or a complete database at the "
+          "target path and the next start must succeed. 11 kinds of pre-existing content x 3 entry points x 2 schemas: "
+          "keep / reject-unchanged / refuse / never-create.",
+     tech="exhaustive crash-point enumeration with directory images + finite input family", engine="mcx-fsx"),
+ "C20": dict(cat="fault_enumeration", ref="DESIGN.md §3.4, §4 C20",
+     text="v1 usage databases (empty, 1, 50 rows, NULLs, 2^63-1, status row): crash image at every boundary of the upgrade "
+          "(fs calls, torn backup copy, every statement of the upgrade script, commit); every image keeps the old rows in "
+          "main file or backup and a plain restart completes the upgrade to the uninterrupted result with an intact backup.",
+     tech="exhaustive crash-point enumeration with directory images", engine="mcx-fsx"),
  "C02": dict(cat="model_checking", ref="DESIGN.md §4 C02",
      text="Explicit-state BFS over the real server code: every history (<= depth) of connections/binds/open/add/close/"
           "disconnect/sweep/restart over 2 apps, 2 sides, 2 mailboxes, up to 4 connections; on every accepted add the "
